@@ -100,33 +100,43 @@ def load_baseline():
 
 def attr_profiles(modules):
     """attribute / method name -> {where: count}: every `x.<name>` occurrence and every `def <name>` in a class, keyed by the
-    enclosing 'module:Class.function' (uses) or 'module:Class#def' (definitions).  A pure rename keeps the profile."""
+    enclosing 'module:Class.function' plus the role of the occurrence -- stored (S), called (C), base of a further attribute /
+    item access (B), plain load (L) -- or 'module:Class#def' (definitions).  A pure rename keeps the profile; a field replaced by
+    an object with fields of its own does not."""
     prof = {}
 
     def add(name, where):
         d = prof.setdefault(name, {})
         d[where] = d.get(where, 0) + 1
+
+    def scan(root, where):
+        for par in ast.walk(root):
+            for ch in ast.iter_child_nodes(par):
+                if isinstance(ch, ast.Attribute):
+                    if isinstance(ch.ctx, (ast.Store, ast.Del)):
+                        role = 'S'
+                    elif isinstance(par, ast.Call) and par.func is ch:
+                        role = 'C'
+                    elif isinstance(par, (ast.Attribute, ast.Subscript)) and par.value is ch:
+                        role = 'B'
+                    else:
+                        role = 'L'
+                    add(ch.attr, f'{where}:{role}')
+        if isinstance(root, ast.Attribute):
+            add(root.attr, f'{where}:L')
     for mname, tree in sorted(modules.items()):
         for n in tree.body:
             if isinstance(n, (ast.FunctionDef, ast.AsyncFunctionDef)):
-                for x in ast.walk(n):
-                    if isinstance(x, ast.Attribute):
-                        add(x.attr, f'{mname}:{n.name}')
+                scan(n, f'{mname}:{n.name}')
             elif isinstance(n, ast.ClassDef):
                 for m in n.body:
                     if isinstance(m, (ast.FunctionDef, ast.AsyncFunctionDef)):
                         add(m.name, f'{mname}:{n.name}#def')
-                        for x in ast.walk(m):
-                            if isinstance(x, ast.Attribute):
-                                add(x.attr, f'{mname}:{n.name}.{m.name}')
+                        scan(m, f'{mname}:{n.name}.{m.name}')
                     else:
-                        for x in ast.walk(m):
-                            if isinstance(x, ast.Attribute):
-                                add(x.attr, f'{mname}:{n.name}#body')
+                        scan(m, f'{mname}:{n.name}#body')
             else:
-                for x in ast.walk(n):
-                    if isinstance(x, ast.Attribute):
-                        add(x.attr, f'{mname}:#module')
+                scan(n, f'{mname}:#module')
     return prof
 
 
@@ -763,6 +773,9 @@ class _Inliner:
                 return h
             if not h.static and isinstance(f.value, ast.Name) and bt not in ('self', 'cls', 'super') and bt not in self.subclasses:
                 return h                      # x.helper(..) on another object: the helper's name is unique in the program
+            if not h.static and isinstance(f.value, ast.Attribute) and _atomic(f.value) and bt.startswith('self.') \
+                    and cur_cls not in self.subclasses.get(h.cls, ()):
+                return h                      # self.part.helper(..): a method of the object kept in a field
             if h.static and (bt == h.cls or (bt in ('cls', 'type(self)') and cur_cls in self.subclasses.get(h.cls, ()))):
                 return h
             if h.classmethod and bt == 'self' and cur_cls in self.subclasses.get(h.cls, ()):
@@ -1174,7 +1187,7 @@ def unroll_table_loops(trees, base, log):
                 rows = literal_rows(table) if table is not None else None
                 tg = st.target.elts if isinstance(st.target, (ast.Tuple, ast.List)) else [st.target]
                 if rows is not None and all(isinstance(t, ast.Name) for t in tg) \
-                        and not any(isinstance(x, (ast.Break, ast.Continue, ast.Return, ast.Yield, ast.YieldFrom)) for b in st.body for x in ast.walk(b)) \
+                        and not any(isinstance(x, (ast.Break, ast.Continue, ast.Return, ast.YieldFrom)) for b in st.body for x in ast.walk(b)) \
                         and not any(isinstance(x, ast.Name) and isinstance(x.ctx, (ast.Store, ast.Del)) and x.id in {t.id for t in tg} for b in st.body for x in ast.walk(b)):
                     names = [t.id for t in tg]
                     okr = True
@@ -1214,6 +1227,410 @@ def unroll_table_loops(trees, base, log):
                         c.body.remove(fn)
     if count:
         log.append(f'N7 {count} loop(s) over a constant table of rows unrolled')
+
+
+def defaults_into_init(trees, base, log):
+    """N8: new class-level defaults `_x = <immutable constant>` of a class with a constructor, read and written only through `self`,
+    are the first assignments of the constructor (an instance that never assigned the name reads the class value: the same value)."""
+    count = 0
+    for mname, tree in trees.items():
+        b = base.get(mname)
+        if b is None:
+            continue
+        for c in tree.body:
+            if not isinstance(c, ast.ClassDef) or c.name not in b['classes']:
+                continue
+            init = next((m for m in c.body if isinstance(m, ast.FunctionDef) and m.name == '__init__'), None)
+            if init is None:
+                continue
+            known = set(b['classes'][c.name].get('consts', ()))
+
+            def immutable(v):
+                if isinstance(v, ast.Constant):
+                    return True
+                if isinstance(v, ast.UnaryOp) and isinstance(v.op, (ast.USub, ast.UAdd)) and isinstance(v.operand, ast.Constant):
+                    return True
+                if isinstance(v, ast.Attribute):
+                    x = v
+                    while isinstance(x, ast.Attribute):
+                        x = x.value
+                    return isinstance(x, ast.Name) and x.id[:1].isupper() or (isinstance(x, ast.Name) and x.id in ('logging', 'math'))
+                if isinstance(v, ast.Tuple):
+                    return all(immutable(e) for e in v.elts)
+                return False
+            moved = []
+            for st in list(c.body):
+                if isinstance(st, (ast.Assign, ast.AnnAssign)):
+                    n_, v_ = _single_name_assign(st)
+                    if n_ is None or n_ in known or not n_.startswith('_') or (n_.startswith('__') and n_.endswith('__')) or not immutable(v_):
+                        continue
+                    # accessed through self only
+                    mangled = f'_{c.name.lstrip("_")}{n_}' if n_.startswith('__') else n_
+                    other = False
+                    stored = False
+                    for t2 in trees.values():
+                        for x in ast.walk(t2):
+                            if isinstance(x, ast.Attribute) and x.attr in (n_, mangled):
+                                if not (isinstance(x.value, ast.Name) and x.value.id == 'self'):
+                                    other = True
+                                elif isinstance(x.ctx, ast.Store):
+                                    stored = True
+                    if other or not stored:
+                        continue              # (a class constant nobody assigns through self is a constant, not the default of a field)
+                    moved.append((st, n_, v_))
+            if not moved:
+                continue
+            body = init.body
+            k = 1 if body and _is_doc(body[0]) else 0
+            new = []
+            for (st, n_, v_) in moved:
+                c.body.remove(st)
+                new.append(ast.copy_location(ast.Assign(targets=[ast.Attribute(value=ast.Name(id='self', ctx=ast.Load()), attr=n_, ctx=ast.Store())],
+                                                        value=v_, lineno=st.lineno), st))
+                count += 1
+            init.body = body[:k] + new + body[k:]
+            if not c.body:
+                c.body.append(ast.Pass())
+            ast.fix_missing_locations(c)
+    if count:
+        log.append(f'N8 {count} new class-level default(s) of immutable value moved to the head of the constructor')
+
+
+def flatten_records(trees, base, log):
+    """N9: a *new* plain record class K (fields set by its constructor from parameters / defaults, or a dataclass) of which a
+    baseline class keeps one private instance per object (`self.h = K(...)` in its constructor, `h` new, never handed out: after
+    helper inlining and alias propagation every remaining mention is `self.h.<field>`) is spread into fields of the owner:
+    `self.h.f` becomes `self.h_f`, the constructor call becomes the field initialisations.  N0 then maps the new field names back
+    to the fields they replaced when the usage profile is the same."""
+    recs = {}
+    for mname, tree in trees.items():
+        known = base.get(mname, {}).get('classes', {})
+        for c in tree.body:
+            if not isinstance(c, ast.ClassDef) or c.name in known:
+                continue
+            if any(not (isinstance(b, ast.Name) and b.id == 'object') for b in c.bases):
+                continue
+            is_dc = any(_txt(d).split('(')[0].split('.')[-1] == 'dataclass' for d in c.decorator_list)
+            params, fields = [], {}
+            init = next((m for m in c.body if isinstance(m, ast.FunctionDef) and m.name == '__init__'), None)
+            ok = True
+            if is_dc and init is None:
+                for st in c.body:
+                    if isinstance(st, ast.AnnAssign) and isinstance(st.target, ast.Name):
+                        if st.value is not None and not _pure_const_expr(st.value) and not (isinstance(st.value, ast.Constant)):
+                            ok = False
+                        params.append((st.target.id, st.value))
+                        fields[st.target.id] = ('param', st.target.id)
+            elif init is not None and not is_dc:
+                a = init.args
+                if a.vararg or a.kwarg or a.kwonlyargs or a.posonlyargs:
+                    ok = False
+                names = [x.arg for x in a.args][1:]
+                defs = [None] * (len(names) - len(a.defaults)) + list(a.defaults)
+                params = list(zip(names, defs))
+                for st in _body(init):
+                    n_ = v_ = None
+                    if isinstance(st, ast.Assign) and len(st.targets) == 1:
+                        n_, v_ = st.targets[0], st.value
+                    elif isinstance(st, ast.AnnAssign) and st.value is not None:
+                        n_, v_ = st.target, st.value
+                    if not (isinstance(n_, ast.Attribute) and isinstance(n_.value, ast.Name) and n_.value.id == 'self'):
+                        ok = False
+                        break
+                    if isinstance(v_, ast.Name) and v_.id in names:
+                        fields[n_.attr] = ('param', v_.id)
+                    elif isinstance(v_, ast.Constant):
+                        fields[n_.attr] = ('const', v_)
+                    else:
+                        ok = False
+                        break
+            else:
+                ok = False
+            if ok and fields:
+                recs[c.name] = {'params': params, 'fields': fields, 'node': c, 'module': mname}
+    if not recs:
+        return
+    # holders
+    done = 0
+    for mname, tree in trees.items():
+        b = base.get(mname)
+        if b is None:
+            continue
+        for c in tree.body:
+            if not isinstance(c, ast.ClassDef) or c.name not in b['classes']:
+                continue
+            init = next((m for m in c.body if isinstance(m, ast.FunctionDef) and m.name == '__init__'), None)
+            if init is None:
+                continue
+            for st in list(init.body):
+                tgt = val = None
+                if isinstance(st, ast.Assign) and len(st.targets) == 1:
+                    tgt, val = st.targets[0], st.value
+                elif isinstance(st, ast.AnnAssign) and st.value is not None:
+                    tgt, val = st.target, st.value
+                if not (isinstance(tgt, ast.Attribute) and isinstance(tgt.value, ast.Name) and tgt.value.id == 'self' and isinstance(val, ast.Call)
+                        and isinstance(val.func, ast.Name) and val.func.id in recs and tgt.attr.startswith('_')):
+                    continue
+                h, K = tgt.attr, recs[val.func.id]
+                if h in base.get('__attrs__', {}):
+                    continue
+                # bind constructor arguments
+                if any(isinstance(a, ast.Starred) for a in val.args) or any(k.arg is None for k in val.keywords):
+                    continue
+                bind = {}
+                pn = [p for p, _d in K['params']]
+                if len(val.args) > len(pn):
+                    continue
+                for p_, a_ in zip(pn, val.args):
+                    bind[p_] = a_
+                for k in val.keywords:
+                    bind[k.arg] = k.value
+                for p_, d_ in K['params']:
+                    if p_ not in bind:
+                        if d_ is None:
+                            bind = None
+                            break
+                        bind[p_] = d_
+                if bind is None or not all(_atomic(v) or isinstance(v, ast.Constant) or _pure_const_expr(v) for v in bind.values()):
+                    continue
+                # every other mention of h: self.h.<field of K>
+                okh = True
+                parents = {}
+                for t2 in trees.values():
+                    for x in ast.walk(t2):
+                        for ch in ast.iter_child_nodes(x):
+                            parents[id(ch)] = x
+                uses = []
+                for t2 in trees.values():
+                    for x in ast.walk(t2):
+                        if isinstance(x, ast.Attribute) and x.attr == h:
+                            if x is tgt:
+                                continue
+                            par = parents.get(id(x))
+                            if not (isinstance(x.value, ast.Name) and x.value.id == 'self' and isinstance(par, ast.Attribute) and par.value is x
+                                    and par.attr in K['fields'] and isinstance(x.ctx, ast.Load)):
+                                okh = False
+                            else:
+                                uses.append(par)
+                        elif isinstance(x, ast.Constant) and isinstance(x.value, str) and x.value == h:
+                            okh = False
+                if not okh:
+                    continue
+                for par in uses:
+                    par.value = ast.copy_location(ast.Name(id='self', ctx=ast.Load()), par)
+                    par.attr = f'{h}_{par.attr}'
+                new = []
+                for f_, (kind, src) in K['fields'].items():
+                    v_ = copy.deepcopy(bind[src]) if kind == 'param' else copy.deepcopy(src)
+                    new.append(ast.copy_location(ast.Assign(targets=[ast.Attribute(value=ast.Name(id='self', ctx=ast.Load()), attr=f'{h}_{f_}', ctx=ast.Store())],
+                                                            value=v_, lineno=st.lineno), st))
+                i_ = init.body.index(st)
+                init.body[i_:i_ + 1] = new
+                ast.fix_missing_locations(init)
+                done += 1
+                log.append(f'N9 {c.name}.{h}: one private {val.func.id} record per object spread into the fields {[f"{h}_{f_}" for f_ in K["fields"]]}')
+    # record classes that are no longer mentioned go
+    if done:
+        for name, K in recs.items():
+            refs = sum(1 for t2 in trees.values() for x in ast.walk(t2) if (isinstance(x, ast.Name) and x.id == name)
+                       or (isinstance(x, ast.Constant) and x.value == name))
+            if refs == 0:
+                tree = trees[K['module']]
+                if K['node'] in tree.body:
+                    tree.body.remove(K['node'])
+
+
+def inline_yield_sequences(trees, base, log):
+    """`for T in self.g(): S` with g a new parameterless generator method whose body is only `yield E1; yield E2; ...` (for instance
+    after its loop over a constant table was unrolled) and S a single call statement that evaluates nothing with an effect before
+    the loop variables: the loop becomes S once per yield with that yield's expressions in place of the variables."""
+    gens = {}
+    for mname, tree in trees.items():
+        known = base.get(mname, {}).get('classes', {})
+        for c in tree.body:
+            if isinstance(c, ast.ClassDef):
+                for m in c.body:
+                    if isinstance(m, ast.FunctionDef) and len(m.args.args) == 1 and not m.decorator_list \
+                            and m.name not in known.get(c.name, {}).get('methods', {}):
+                        b = _body(m)
+                        if b and len(b) <= 40 and all(isinstance(st, ast.Expr) and isinstance(st.value, ast.Yield) and st.value.value is not None for st in b):
+                            gens.setdefault(m.name, []).append((c, m, [st.value.value for st in b]))
+    gens = {k: v[0] for k, v in gens.items() if len(v) == 1}
+    if not gens:
+        return
+    count = {}
+
+    def block(stmts):
+        out = []
+        for st in stmts:
+            for field in ('body', 'orelse', 'finalbody'):
+                v = getattr(st, field, None)
+                if isinstance(v, list) and v and isinstance(v[0], ast.stmt) and not isinstance(st, (ast.FunctionDef, ast.ClassDef)):
+                    setattr(st, field, block(v))
+            if isinstance(st, ast.Try):
+                for h in st.handlers:
+                    h.body = block(h.body)
+            if isinstance(st, ast.For) and not st.orelse and len(st.body) == 1 and isinstance(st.body[0], ast.Expr) and isinstance(st.body[0].value, ast.Call) \
+                    and isinstance(st.iter, ast.Call) and not st.iter.args and not st.iter.keywords and isinstance(st.iter.func, ast.Attribute) \
+                    and _txt(st.iter.func.value) == 'self' and st.iter.func.attr in gens:
+                cls, gfn, ys = gens[st.iter.func.attr]
+                tg = st.target.elts if isinstance(st.target, (ast.Tuple, ast.List)) else [st.target]
+                call = st.body[0].value
+                names = [t.id for t in tg] if all(isinstance(t, ast.Name) for t in tg) else None
+                ok = names is not None and isinstance(call.func, ast.Attribute) and _atomic(call.func) and not call.keywords
+                if ok:
+                    # arguments: loop variables or pure reads, each loop variable exactly once and only as a direct argument
+                    seen = []
+                    for a in call.args:
+                        if isinstance(a, ast.Name) and a.id in names:
+                            seen.append(a.id)
+                        elif not (_atomic(a) or _pure_read(a)) or any(isinstance(x, ast.Name) and x.id in names for x in ast.walk(a)):
+                            ok = False
+                    ok = ok and sorted(seen) == sorted(names) and seen == [n for n in names if n in seen]
+                if ok:
+                    for y in ys:
+                        parts = y.elts if (isinstance(st.target, (ast.Tuple, ast.List)) and isinstance(y, ast.Tuple)) else [y]
+                        if len(parts) != len(names):
+                            ok = False
+                if ok:
+                    for y in ys:
+                        parts = y.elts if isinstance(st.target, (ast.Tuple, ast.List)) else [y]
+                        m = dict(zip(names, parts))
+                        nb = _Subst(m, {}).visit(copy.deepcopy(st.body[0]))
+                        for x in ast.walk(nb):
+                            if hasattr(x, 'lineno'):
+                                x.lineno = getattr(y, 'lineno', x.lineno)
+                        ast.fix_missing_locations(nb)
+                        out.append(nb)
+                    count[st.iter.func.attr] = count.get(st.iter.func.attr, 0) + 1
+                    continue
+            out.append(st)
+        return out
+    for mname, tree in trees.items():
+        for n in tree.body:
+            if isinstance(n, ast.ClassDef):
+                for m in n.body:
+                    if isinstance(m, ast.FunctionDef) and m.name not in gens:
+                        m.body = block(m.body)
+    for name, k in count.items():
+        cls, gfn, _ys = gens[name]
+        refs = sum(1 for tree in trees.values() for x in ast.walk(tree) if isinstance(x, ast.Attribute) and x.attr == name)
+        if refs == 0 and gfn in cls.body:
+            cls.body.remove(gfn)
+        log.append(f'N2 generator {cls.name}.{name} (a sequence of {len(_ys)} yields) inlined into {k} for-loop(s)' + ('; definition dropped' if refs == 0 else ''))
+
+
+def inline_derived_fields(trees, base, log):
+    """N3 for fields: a *new* private field assigned exactly once in the whole program, at the top level of a constructor, to a pure
+    expression over fields that only constructors bind (`self._span = self._hi - self._lo`) holds that expression's value for the
+    life of the object; every read of it becomes the expression (evaluated on the same operands: the same float) and the store goes."""
+    attr_rebound, _item = _rebound_attrs(trees)
+    known = base.get('__attrs__', {})
+    stores = {}
+    for mname, tree in trees.items():
+        for c in tree.body:
+            if isinstance(c, ast.ClassDef):
+                for m in c.body:
+                    if isinstance(m, ast.FunctionDef):
+                        for x in ast.walk(m):
+                            if isinstance(x, ast.Attribute) and isinstance(x.ctx, (ast.Store, ast.Del)):
+                                stores.setdefault(x.attr, []).append((c, m, x))
+    count = 0
+    bases = {}
+    for tree in trees.values():
+        for c in tree.body:
+            if isinstance(c, ast.ClassDef):
+                bases[c.name] = [b.id if isinstance(b, ast.Name) else getattr(b, 'attr', None) for b in c.bases]
+
+    def owner_of(cname, owners, seen=()):
+        if cname in owners:
+            return cname
+        for b in bases.get(cname, ()):
+            if b and b not in seen:
+                r = owner_of(b, owners, seen + (cname,))
+                if r:
+                    return r
+        return None
+    for f, sts in sorted(stores.items()):
+        if f in known or not f.startswith('_') or f.startswith('__') or f in attr_rebound:
+            continue
+        if any(m.name != '__init__' or not (isinstance(t.value, ast.Name) and t.value.id == 'self') for (_c, m, t) in sts):
+            continue
+        if len({c.name for (c, _m, _t) in sts}) != len(sts):
+            continue                                  # two stores in one constructor
+
+        def ok_expr(x):
+            if isinstance(x, ast.Constant):
+                return True
+            if isinstance(x, ast.Attribute):
+                return isinstance(x.value, ast.Name) and x.value.id == 'self' and x.attr not in attr_rebound and x.attr != f \
+                    and len(stores.get(x.attr, ())) >= 1 and all(mm.name == '__init__' for (_c, mm, _x) in stores[x.attr])
+            if isinstance(x, ast.BinOp):
+                return ok_expr(x.left) and ok_expr(x.right)
+            if isinstance(x, ast.UnaryOp) and isinstance(x.op, (ast.USub, ast.UAdd)):
+                return ok_expr(x.operand)
+            return False
+        defs_ = {}
+        good = True
+        for (c, m, tgt) in sts:
+            st = next((s_ for s_ in m.body if isinstance(s_, (ast.Assign, ast.AnnAssign)) and getattr(s_, 'value', None) is not None
+                       and (s_.targets[0] if isinstance(s_, ast.Assign) and len(s_.targets) == 1 else getattr(s_, 'target', None)) is tgt), None)
+            if st is None or not isinstance(st.value, (ast.BinOp, ast.UnaryOp)) or not ok_expr(st.value):
+                good = False
+                break
+            idx = m.body.index(st)
+            later_writes = {x.attr for s_ in m.body[idx + 1:] for x in ast.walk(s_) if isinstance(x, ast.Attribute) and isinstance(x.ctx, ast.Store)}
+            if any(isinstance(x, ast.Attribute) and x.attr in later_writes for x in ast.walk(st.value)):
+                good = False
+                break
+            defs_[c.name] = (c, m, st)
+        if not good or any(owner_of(b, defs_) for cn in defs_ for b in bases.get(cn, ()) if b):
+            continue                                  # (a constructor chain that binds the name twice)
+        # every read is self.f inside a class that has (or inherits) exactly one of the definitions
+        total = 0
+        bad = False
+        plan = []
+        tgts = {id(t) for (_c, _m, t) in sts}
+        for tree in trees.values():
+            for x in ast.walk(tree):
+                if isinstance(x, ast.Constant) and x.value == f:
+                    bad = True
+            for cc in tree.body:
+                if isinstance(cc, ast.ClassDef):
+                    own = owner_of(cc.name, defs_)
+                    for x in ast.walk(cc):
+                        if isinstance(x, ast.Attribute) and x.attr == f and id(x) not in tgts:
+                            if own is None or not (isinstance(x.value, ast.Name) and x.value.id == 'self' and isinstance(x.ctx, ast.Load)):
+                                bad = True
+                    if own is not None:
+                        plan.append((cc, defs_[own][2]))
+                else:
+                    for x in ast.walk(cc):
+                        if isinstance(x, ast.Attribute) and x.attr == f:
+                            bad = True
+        if bad:
+            continue
+        for (cc, st) in plan:
+            e = st.value
+            rep = _ReplaceLoads(lambda node, f=f, e=e: e if isinstance(node, ast.Attribute) and node.attr == f and isinstance(node.value, ast.Name)
+                                and node.value.id == 'self' else None)
+            for mm in cc.body:
+                if isinstance(mm, ast.FunctionDef):
+                    for i_, s_ in enumerate(mm.body):
+                        if s_ is not st:
+                            mm.body[i_] = rep.visit(s_)
+            total += rep.count
+        if not total:
+            continue
+        for (c, m, st) in defs_.values():
+            m.body.remove(st)
+            if not m.body:
+                m.body.append(ast.Pass())
+        count += 1
+        log.append(f'N3 field {f} (bound once per object, in the constructor, to ' + ' / '.join(sorted({_txt(st.value) for (_c, _m, st) in defs_.values()}))
+                   + f' over constructor-only fields) read as that expression at {total} site(s)')
+    for t in trees.values():
+        ast.fix_missing_locations(t)
 
 
 def inline_generators(trees, base, log):
@@ -2577,6 +2994,7 @@ def run(trees, baseline=None):
     OBSERVERS.clear()
     OBSERVERS.update(observer_methods(trees))
     strip_noops(trees, base, log)
+    defaults_into_init(trees, base, log)
     fold_constants(trees, base, log)
     NON_NONE_CLASS_CONSTANTS.clear()
     for t in trees.values():
@@ -2592,13 +3010,16 @@ def run(trees, baseline=None):
     inline_generators(trees, base, log)
     unfold_walrus(trees, log)
     unroll_table_loops(trees, base, log)
+    inline_yield_sequences(trees, base, log)
     inline_helpers(trees, base, log)
     for t in trees.values():                      # getattr(x, 'literal') / f(*(literal tuple)) / (lambda ..)(..) exposed by constant arguments of inlined helpers
         if any(isinstance(x, ast.Call) and ((isinstance(x.func, ast.Name) and x.func.id == 'getattr') or isinstance(x.func, ast.Lambda)
                                            or any(isinstance(a, ast.Starred) for a in x.args)) for x in ast.walk(t)):
             _BetaReduce().visit(t)
+    inline_derived_fields(trees, base, log)
     propagate_locals(trees, base, log)
     strip_noops(trees, base, log)                 # conversions exposed by the propagation
+    flatten_records(trees, base, log)
     undo_renames(trees, base, log)                # renames whose usage profile only matches once the new helpers are gone
     for t in trees.values():
         ast.fix_missing_locations(t)
